@@ -8,6 +8,9 @@
 // transactions) into queues whose free slots are few: the model says admission does not depend on any size, so
 // a size-aware implementation (splitting, truncating, refusing) shows as a difference.  Those cases run on the
 // on-disk badger store (the production configuration; the in-memory one refuses values above 1 MiB).
+// The queue bound (maxQueueSize) is a parameter of every PROCESS START: a restart / crash recovery may start the new
+// Sequencer with another bound than the one the records were written under (unchanged, unlimited, larger, equal to,
+// smaller than the number of batches pending at that moment, 1).
 package c10
 
 import (
@@ -48,12 +51,24 @@ var foreignID = []byte("c10-other")
 // B: pool index (1-based) of the submitted batch; 0 = nil batch pointer; -1 = batch without transactions.
 // Bad: the request carries a foreign chain id.  For T = crash: Op = submit | next is the operation the
 // process dies in, N = number of its datastore writes that became durable before death.
+// For T = restart | crash: Max = maxQueueSize of the process that is started (absent = the same bound as before).
 type Item struct {
 	T   string `json:"t"`
 	B   int    `json:"b,omitempty"`
 	Bad bool   `json:"bad,omitempty"`
 	Op  string `json:"op,omitempty"`
 	N   int    `json:"n,omitempty"`
+	Max *int   `json:"max,omitempty"`
+}
+
+func ip(v int) *int { return &v }
+
+// the bound in force after the item
+func boundAfter(cur int, it Item) int {
+	if (it.T == "restart" || it.T == "crash") && it.Max != nil {
+		return *it.Max
+	}
+	return cur
 }
 
 type Replay struct {
@@ -61,7 +76,7 @@ type Replay struct {
 	Legacy  []int      `json:"legacy,omitempty"` // kind legacy: pool ids whose records pre-exist under the old bare-hash keys
 	Seed    int64      `json:"seed"`
 	Case    int        `json:"case"`
-	Max     int        `json:"max"`  // maxQueueSize (0 = unlimited; 1000 = NewSequencer's default constructor)
+	Max     int        `json:"max"`  // maxQueueSize of the first process (0 = unlimited; 1000 = NewSequencer's default constructor)
 	Pool    [][]string `json:"pool"` // batches as lists of transactions; pool[i] is id i+1; a transaction is hex, or "#<size>:<byte>" = size bytes of that value
 	History []Item     `json:"history"`
 	Note    string     `json:"note,omitempty"`
@@ -208,6 +223,19 @@ func genBigPool(r *rand.Rand) (desc [][]string, nsmall int) {
 // hand-out / crash inside a hand-out) and a short random tail over the whole pool
 func genBigHistory(r *rand.Rand, npool, nsmall, max int) []Item {
 	var h []Item
+	defer func() {
+		// one size-boundary case in three: every process start draws its own bound
+		if r.Intn(3) != 0 {
+			return
+		}
+		for i := range h {
+			if h[i].T == "restart" || h[i].T == "crash" {
+				if x := r.Intn(6); x > 0 {
+					h[i].Max = ip(x - 1) // 0 (unlimited), 1..4
+				}
+			}
+		}
+	}()
 	small := func() int { return 1 + r.Intn(nsmall) }
 	big := func() int { return nsmall + 1 + r.Intn(npool-nsmall) }
 	switch {
@@ -273,11 +301,50 @@ func needsDisk(pool [][][]byte) bool {
 	return false
 }
 
-func genHistory(r *rand.Rand, npool, maxLen int) []Item {
+// the bound of a process start, relative to the bound in force (cur) and to the number of batches pending according
+// to the generator's own count (est; a heuristic for drawing only, never used for judging): unchanged, unlimited,
+// larger than both, equal to the number pending, smaller than the number pending, 1, any of the usual bounds
+func drawBound(r *rand.Rand, cur, est int) *int {
+	switch r.Intn(10) {
+	case 0, 1, 2:
+		return nil
+	case 3:
+		return ip(0)
+	case 4:
+		m := cur
+		if est > m {
+			m = est
+		}
+		return ip(m + 1 + r.Intn(3))
+	case 5:
+		if est >= 1 {
+			return ip(est)
+		}
+		return ip(1)
+	case 6, 7:
+		if est >= 2 {
+			return ip(1 + r.Intn(est-1))
+		}
+		return ip(1)
+	case 8:
+		return ip(1)
+	}
+	return ip(startMaxes[r.Intn(len(startMaxes))])
+}
+
+var startMaxes = []int{0, 1, 2, 3, 3, 5, 8, 1000}
+
+func genHistory(r *rand.Rand, npool, maxLen, max int) []Item {
 	n := 1 + r.Intn(maxLen)
 	// per-case tendencies so that some cases have many duplicates / restarts and others none
 	dupBias := r.Intn(3)     // 0: whole pool, 1: mostly one batch, 2: round-robin fresh-ish
 	restartPct := r.Intn(25) // 0..24 %
+	// 0: the bound never changes; 1, 2: every process start draws its bound; 3: as 1, after an opening burst of
+	// submissions followed by a restart with a bound smaller than the number of batches pending
+	boundMode := r.Intn(4)
+	if boundMode > 0 && restartPct < 6 {
+		restartPct += 6
+	}
 	var h []Item
 	rr := 0
 	pick := func() int {
@@ -292,19 +359,57 @@ func genHistory(r *rand.Rand, npool, maxLen int) []Item {
 		}
 		return 1 + r.Intn(npool)
 	}
+	cur, est := max, 0 // the bound in force, and the generator's count of pending batches
+	add := func(it Item) {
+		h = append(h, it)
+		switch {
+		case it.T == "submit" && !it.Bad && it.B > 0, it.T == "crash" && it.Op == "submit" && it.N > 0:
+			if cur == 0 || est < cur {
+				est++
+			}
+		case it.T == "next" && !it.Bad, it.T == "crash" && it.Op == "next" && it.N > 0:
+			if est > 0 {
+				est--
+			}
+		}
+		cur = boundAfter(cur, it)
+	}
+	if boundMode == 3 {
+		k := 2 + r.Intn(6)
+		if max > 0 && k > max {
+			k = max
+		}
+		for i := 0; i < k; i++ {
+			add(Item{T: "submit", B: pick()})
+		}
+		if est >= 2 {
+			nb := 1 + r.Intn(est-1)
+			if r.Intn(4) == 0 {
+				add(Item{T: "crash", Op: []string{"submit", "next"}[r.Intn(2)], B: pick(), N: r.Intn(3), Max: ip(nb)})
+			} else {
+				add(Item{T: "restart", Max: ip(nb)})
+			}
+		}
+	}
+	bound := func() *int {
+		if boundMode == 0 {
+			return nil
+		}
+		return drawBound(r, cur, est)
+	}
 	for i := 0; i < n; i++ {
 		x := r.Intn(100)
 		switch {
 		case x < restartPct:
-			h = append(h, Item{T: "restart"})
+			add(Item{T: "restart", Max: bound()})
 		case x < restartPct+8:
 			if r.Intn(2) == 0 {
-				h = append(h, Item{T: "crash", Op: "submit", B: pick(), N: r.Intn(3)})
+				add(Item{T: "crash", Op: "submit", B: pick(), N: r.Intn(3), Max: bound()})
 			} else {
-				h = append(h, Item{T: "crash", Op: "next", N: r.Intn(3)})
+				add(Item{T: "crash", Op: "next", N: r.Intn(3), Max: bound()})
 			}
 		case x < restartPct+8+38:
-			h = append(h, Item{T: "next", Bad: r.Intn(12) == 0})
+			add(Item{T: "next", Bad: r.Intn(12) == 0})
 		default:
 			it := Item{T: "submit", B: pick(), Bad: r.Intn(12) == 0}
 			if y := r.Intn(14); y == 0 {
@@ -312,7 +417,7 @@ func genHistory(r *rand.Rand, npool, maxLen int) []Item {
 			} else if y == 1 {
 				it.B = -1
 			}
-			h = append(h, it)
+			add(it)
 		}
 	}
 	return h
@@ -561,6 +666,7 @@ func (r *runner) exec(it Item) out {
 	case "next":
 		return r.next(it)
 	case "restart":
+		r.max = boundAfter(r.max, it) // the new process's maxQueueSize
 		if err := r.boot(); err != nil {
 			return out{kind: "other"}
 		}
@@ -577,6 +683,7 @@ func (r *runner) exec(it Item) out {
 			in = r.next(Item{T: "next"})
 		}
 		r.cds.FailAfter = -1
+		r.max = boundAfter(r.max, it) // the new process's maxQueueSize
 		if err := r.boot(); err != nil {
 			return out{kind: "other"}
 		}
@@ -597,6 +704,8 @@ type oracle struct {
 	what     string
 	dupPend  bool // a submission was accepted while a batch with equal contents was pending
 	unordRst bool // a restart / crash happened while the pending batches' real hashes were not strictly increasing
+	lowStart bool // a process was started with a positive bound smaller than the number of batches pending
+	starts   map[string]int
 	accepted int
 	guardOK  bool
 	hashes   map[int][]byte
@@ -630,7 +739,30 @@ func (o *oracle) fail(sym, what string) {
 
 func (o *oracle) isFull() bool { return o.max > 0 && len(o.pending) >= o.max }
 
-func (o *oracle) noteRestart() {
+// a process start: the new process's bound applies from here on
+func (o *oracle) noteRestart(it Item) {
+	if o.starts == nil {
+		o.starts = map[string]int{}
+	}
+	nb := boundAfter(o.max, it)
+	switch {
+	case it.Max == nil:
+		o.starts["start:bound-unchanged"]++
+	case nb == 0:
+		o.starts["start:bound-unlimited"]++
+	case nb < len(o.pending):
+		o.starts["start:bound-smaller-than-pending"]++
+	case nb == len(o.pending):
+		o.starts["start:bound-equal-to-pending"]++
+	case nb < o.max || o.max == 0:
+		o.starts["start:bound-lowered-above-pending"]++
+	default:
+		o.starts["start:bound-raised-or-same-value"]++
+	}
+	if nb > 0 && nb < len(o.pending) {
+		o.lowStart = true
+	}
+	o.max = nb
 	for i := 0; i+1 < len(o.pending); i++ {
 		if bytes.Compare(o.hashOf(o.pending[i]), o.hashOf(o.pending[i+1])) >= 0 {
 			o.unordRst = true
@@ -711,7 +843,7 @@ func (o *oracle) observe(idx int, it Item, got out) {
 		if got.kind != "none" {
 			o.fail("restart-failed", fmt.Sprintf("item %d: the sequencer could not be rebuilt on its datastore", idx))
 		}
-		o.noteRestart()
+		o.noteRestart(it)
 	}
 }
 
@@ -755,7 +887,7 @@ func (o *oracle) observeCrash(idx int, it Item, wrote bool, got out) {
 			return
 		}
 	}
-	o.noteRestart()
+	o.noteRestart(it)
 }
 
 // signature: the symptom, attributed to a trigger class of the history when one is present
@@ -763,6 +895,15 @@ func (o *oracle) signature() string {
 	switch o.symptom {
 	case "":
 		return ""
+	}
+	if o.lowStart {
+		switch o.symptom {
+		case "next-out-of-order", "next-empty-but-pending", "next-not-pending", "drained-queue-leaves-records",
+			"rejected-though-not-full", "accepted-beyond-bound":
+			return "after-start-with-bound-below-pending:" + o.symptom
+		}
+	}
+	switch o.symptom {
 	case "next-out-of-order":
 		if o.unordRst {
 			return "restart-with-pending-not-in-hash-order"
@@ -898,7 +1039,7 @@ func runCase(pool [][][]byte, max int, hist []Item, legacy ...int) (res *caseRes
 	return
 }
 
-func histCoq(h []Item) string {
+func histCoq(max int, h []Item) string {
 	sub := func(it Item) string {
 		switch {
 		case it.B == 0:
@@ -912,16 +1053,18 @@ func histCoq(h []Item) string {
 	for _, it := range h {
 		switch it.T {
 		case "submit":
-			items = append(items, fmt.Sprintf("UOp (USubmit %s %s)", vgen.Bool(!it.Bad), sub(it)))
+			items = append(items, fmt.Sprintf("VOp (USubmit %s %s)", vgen.Bool(!it.Bad), sub(it)))
 		case "next":
-			items = append(items, fmt.Sprintf("UOp (UNext %s)", vgen.Bool(!it.Bad)))
+			items = append(items, fmt.Sprintf("VOp (UNext %s)", vgen.Bool(!it.Bad)))
 		case "restart":
-			items = append(items, "URestart")
+			max = boundAfter(max, it)
+			items = append(items, "VStart "+vgen.N(uint64(max)))
 		case "crash":
+			max = boundAfter(max, it)
 			if it.Op == "submit" {
-				items = append(items, fmt.Sprintf("UCrash (USubmit true %s) %s", sub(it), vgen.Nat(it.N)))
+				items = append(items, fmt.Sprintf("VCrash (USubmit true %s) %s %s", sub(it), vgen.Nat(it.N), vgen.N(uint64(max))))
 			} else {
-				items = append(items, fmt.Sprintf("UCrash (UNext true) %s", vgen.Nat(it.N)))
+				items = append(items, fmt.Sprintf("VCrash (UNext true) %s %s", vgen.Nat(it.N), vgen.N(uint64(max))))
 			}
 		}
 	}
@@ -975,6 +1118,9 @@ func validHist(h []Item, npool int) bool {
 			return false
 		}
 		if it.T == "crash" && it.Op == "submit" && it.B <= 0 {
+			return false
+		}
+		if it.Max != nil && (*it.Max < 0 || *it.Max > 1_000_000) {
 			return false
 		}
 	}
@@ -1156,11 +1302,15 @@ func runConcurrent(seed int64, c int) (sig, what string, stats map[string]int) {
 // what the size-boundary cases reached (measured on the real run)
 func sizeStats(res *vgen.Result, pool [][][]byte, max int, h []Item, cr *caseResult) {
 	pending := 0 // what a FIFO of whole submissions holds (reference count from the results)
-	for i, it := range withClosing(h) {
+	full := withClosing(h)
+	for i, it := range full {
 		if i >= len(cr.outs) {
 			break
 		}
 		o := cr.outs[i]
+		if i > 0 {
+			max = boundAfter(max, full[i-1]) // the bound of the process the item runs in
+		}
 		isSubmit := it.T == "submit" || (it.T == "crash" && it.Op == "submit")
 		if isSubmit && it.B > 0 && !it.Bad {
 			pl := payloadOf(pool[it.B-1])
@@ -1288,7 +1438,7 @@ func TestVerif(t *testing.T) {
 			pool = genPool(r)
 			rp.Max = maxes[r.Intn(len(maxes))]
 			rp.Pool = poolHex(pool)
-			rp.History = genHistory(r, len(pool), maxLen)
+			rp.History = genHistory(r, len(pool), maxLen, rp.Max)
 			if rp.Kind == "legacy" {
 				for _, id := range r.Perm(len(pool))[:1+r.Intn(2)] {
 					rp.Legacy = append(rp.Legacy, id+1)
@@ -1346,12 +1496,18 @@ func TestVerif(t *testing.T) {
 			if cr.orc.unordRst {
 				res.Count("history:restart-with-pending-not-in-hash-order")
 			}
+			if cr.orc.lowStart {
+				res.Count("history:start-with-bound-below-pending")
+			}
+			for k, v := range cr.orc.starts {
+				res.Distribution[k] += v
+			}
 			if !cr.orc.dupPend && !cr.orc.unordRst {
 				res.Count("history:neither-trigger")
 			}
 		}
 		full := withClosing(rp.History)
-		hc := histCoq(full)
+		hc := histCoq(rp.Max, full)
 		if len(rp.History) >= 3 && cr.orc != nil && cr.orc.accepted > 0 {
 			dk := fmt.Sprintf("%d|%v|%s", rp.Max, rp.Legacy, hc)
 			if needsDisk(pool) {
@@ -1400,7 +1556,7 @@ func TestVerif(t *testing.T) {
 		ji++
 	}
 	res.Distinct = len(distinct)
-	res.Rule = "sequential cases: pool of 2-5 batches (incl. one-empty-transaction, [ab] vs [a,b] vs [b,a]) submitted as fresh copies so equal contents recur; bound from {0,1,2,3,5,8,1000 (NewSequencer)}; histories of 1..maxLen items over submit (8% foreign chain id, 14% nil/empty), next, restart (0-24% per case), crash inside submit/next with 0..2 writes surviving; every history is closed by next x (submits+1), restart, next; every 10th case = 2-5 concurrent submitters + one concurrent consumer (oracle only; every fourth of them with LARGE submissions of 2-3 transactions, 1.2-3.3 MB, bound from {0,2,3}, on the on-disk store); two cases in ten are size-boundary cases on the on-disk badger store: pool = 1-2 one-transaction batches + 1-2 LARGE batches (payload k*L+d, L from {1_500_000, 1 MiB, 2_000_000, 2 MiB, 1_000_000, random}, k 1..3, d from {-1, 0, +1, a few KB under / over, a quarter to three quarters of L over}; 2..5 transactions: equal parts, random cuts, one huge first / last, each just over L/2), bound from {0,1,2,3,4}, history = fill the queue so that 1..3 slots are free (or 0..2 small submissions), a large submission (30%: cut by a crash after 0..5 of its datastore writes), an aftermath (restart / next+restart / crash inside next / another large submission) and 0..6 random items; a rejected submission must leave the datastore image unchanged (oracle), a batch handed out must be a whole submission (oracle); every 10th case runs on a store pre-seeded with 1-2 records under the pre-repair bare-hash keys (oracle only: they must be handed out first, exactly once, and be deleted); non-trivial = at least 3 items and one accepted batch; distinct = distinct (bound, keys, history) terms"
+	res.Rule = "sequential cases: pool of 2-5 batches (incl. one-empty-transaction, [ab] vs [a,b] vs [b,a]) submitted as fresh copies so equal contents recur; bound of the first process from {0,1,2,3,5,8,1000 (NewSequencer)}; THE BOUND IS A PARAMETER OF EVERY PROCESS START: in three cases of four every restart / crash recovery draws the new process's bound (30% unchanged, else unlimited / larger than bound and pending / equal to the number pending / smaller than the number pending (20%) / 1 / one of the usual bounds), one case in four opens with a burst of 2-7 submissions followed by a restart (or crash) whose new bound is smaller than the number of batches pending; one size-boundary case in three draws every start's bound from {unchanged,0,1,2,3,4}; the distribution entries start:* are measured against the oracle's pending count at each start; histories of 1..maxLen items over submit (8% foreign chain id, 14% nil/empty), next, restart (0-24% per case), crash inside submit/next with 0..2 writes surviving; every history is closed by next x (submits+1), restart, next; every 10th case = 2-5 concurrent submitters + one concurrent consumer (oracle only; every fourth of them with LARGE submissions of 2-3 transactions, 1.2-3.3 MB, bound from {0,2,3}, on the on-disk store); two cases in ten are size-boundary cases on the on-disk badger store: pool = 1-2 one-transaction batches + 1-2 LARGE batches (payload k*L+d, L from {1_500_000, 1 MiB, 2_000_000, 2 MiB, 1_000_000, random}, k 1..3, d from {-1, 0, +1, a few KB under / over, a quarter to three quarters of L over}; 2..5 transactions: equal parts, random cuts, one huge first / last, each just over L/2), bound from {0,1,2,3,4}, history = fill the queue so that 1..3 slots are free (or 0..2 small submissions), a large submission (30%: cut by a crash after 0..5 of its datastore writes), an aftermath (restart / next+restart / crash inside next / another large submission) and 0..6 random items; a rejected submission must leave the datastore image unchanged (oracle), a batch handed out must be a whole submission (oracle); every 10th case runs on a store pre-seeded with 1-2 records under the pre-repair bare-hash keys (oracle only: they must be handed out first, exactly once, and be deleted); non-trivial = at least 3 items and one accepted batch; distinct = distinct (first bound, keys, history with the bounds of its process starts) terms"
 	res.Cases = len(cases)
 	header := "From Coq Require Import NArith List Bool.\nFrom Verif Require Import Model.Queue Check.QueueCheck."
 	path := filepath.Join(e.Out, "cases_C10.v")
